@@ -89,7 +89,7 @@ impl Engine for XferEngine {
             0 => 0,
             1 => c.range(1, 100) as i32,
             2 => c.range(100_000, 50_000_000) as i32,
-            3 => i32::MAX - c.range(0, 40_000) as i32,
+            3 => i32::MAX - if c.chance(1, 2) { c.range(0, 20) as i32 } else { c.range(0, 40_000) as i32 },
             _ => c.range(1, 5000) as i32,
         };
         let n_ticks = match c.below(6) {
@@ -179,10 +179,11 @@ impl Engine for XferEngine {
             match *op {
                 XferOp::NewTick { inc, base, len, salt } => {
                     ctx.t(1);
-                    tick += inc.max(1) as i64;
-                    if tick > i32::MAX as i64 {
+                    if tick >= i32::MAX as i64 {
                         continue;
                     }
+                    // the last representable tick is reached exactly (not jumped over)
+                    tick = (tick + inc.max(1) as i64).min(i32::MAX as i64);
                     let t = tick as i32;
                     let base = if base >= t { t - 1 } else { base.max(-100_000) };
                     // the wire field is tick - base: keep it representable
